@@ -969,6 +969,44 @@ def deviations(fam: Family, layout: str, world: dict, n: int) -> list:
     return list(range(n)) if n <= 2 else [n - 1]
 
 
+def check_index_builders(acc: core.Acc, maxlen: int) -> None:
+    """binformat.find_or_insert / find_or_extend (the cross-lump index builders) against their contract, exhaustively:
+    every initial list and every sequence of two queries over a 3-symbol alphabet up to maxlen.  After finder(items) == i
+    the list must hold exactly `items` at i .. i+len (that is what the lump readers will dereference), earlier content
+    must be unchanged, and the list may only have grown by appending."""
+    import itertools as it
+    from srctools.binformat import find_or_extend, find_or_insert
+    alpha = 'abc'
+    seqs = [list(t) for n in range(0, maxlen + 1) for t in it.product(alpha, repeat=n)]
+    for base in seqs:
+        for q1 in seqs:
+            for q2 in seqs[:40]:
+                acc.evaluations += 1
+                lst = list(base)
+                finder = find_or_extend(lst, lambda x: x)
+                ok = True
+                for q in (q1, q2):
+                    before = list(lst)
+                    i = finder(list(q))
+                    if lst[:len(before)] != before or (q and lst[i:i + len(q)] != q):
+                        acc.fail('index_builder_wrong', {'index_builder': 'find_or_extend', 'base': base, 'queries': [q1, q2]},
+                                 f'find_or_extend on {base}: query {q} returned {i}, list is now {lst}', lump='index_builder', field='find_or_extend',
+                                 variant='index_builder', layout_class='n/a')
+                        ok = False
+                        break
+                if ok and q1:
+                    acc.nontrivial += 1
+        for q in alpha:
+            lst = list(base)
+            fi = find_or_insert(lst, lambda x: x)
+            i = fi(q)
+            acc.evaluations += 1
+            if lst[:len(base)] != base or lst[i] != q or (q in base and len(lst) != len(base)):
+                acc.fail('index_builder_wrong', {'index_builder': 'find_or_insert', 'base': base, 'queries': [[q]]},
+                         f'find_or_insert on {base}: {q!r} -> {i}, list {lst}', lump='index_builder', field='find_or_insert',
+                         variant='index_builder', layout_class='n/a')
+
+
 def enum_cases(fam: Family, depth: int):
     """Yield every case of one family once."""
     usable, reps = family_layouts(fam)
@@ -1194,6 +1232,9 @@ def shard(spec) -> core.Acc:
             acc.count('cases_' + name.split('_')[0])
             if idx == k:
                 acc.sample({kk: vv for kk, vv in case.items() if kk != 'world'}, 1)
+    elif kind == 'index':
+        check_index_builders(acc, spec[1])
+        acc.count('cases_index_builders')
     elif kind == 'rle':
         _, depth, k, nshards = spec
         for idx, data in enumerate(rle_strings(depth)):
@@ -1217,6 +1258,7 @@ def run(ctx: core.Ctx) -> None:
         ctx.coverage_extra.setdefault('cases_per_family', {})[name] = total
     for k in range(8):
         shards.append(('rle', depth, k, 8))
+    shards.append(('index', 3 if depth == 1 else 4))
     k = ctx.seed % len(shards)
     shards = shards[k:] + shards[:k]
     deadline = ctx.t0 + (300 if ctx.quick else 14 * 60)
@@ -1255,7 +1297,9 @@ def run(ctx: core.Ctx) -> None:
 def replay(case: dict) -> list:
     acc = core.Acc()
     try:
-        if 'rle' in case or 'rle_spec' in case:
+        if 'index_builder' in case:
+            check_index_builders(acc, 3)
+        elif 'rle' in case or 'rle_spec' in case:
             check_rle(acc, _rle_from_case(case))
         else:
             dispatch(acc, case)
